@@ -35,6 +35,7 @@ type Ctx struct {
 	Analysed map[string]int
 	start time.Time
 	walkCache []*walkInfo
+	parseCache []*parseSite
 }
 
 type Floor struct {
